@@ -959,7 +959,7 @@ fn shrink(e: &Entry17, h: &[Step], class: &str) -> Vec<Step> {
     cur
 }
 
-pub fn run(seed: u64, histories: usize, workers: usize, with_faults: bool, types: Option<&str>) -> Summary {
+pub fn run(seed: u64, histories: usize, workers: usize, with_faults: bool, types: Option<&str>, grid: bool) -> Summary {
     let mut ents = entries();
     if let Some(t) = types {
         let want: Vec<&str> = t.split(',').collect();
@@ -971,7 +971,7 @@ pub fn run(seed: u64, histories: usize, workers: usize, with_faults: bool, types
         sum.faults_effective.insert(k.into(), 0);
     }
     // grid histories first (deterministic, independent of the seed), then the seeded ones
-    let grids: Vec<Vec<Vec<Step>>> = ents.iter().map(|e| (e.grid)()).collect();
+    let grids: Vec<Vec<Vec<Step>>> = ents.iter().map(|e| if grid { (e.grid)() } else { Vec::new() }).collect();
     let mut grid_index: Vec<(usize, usize)> = Vec::new();
     for (ti, g) in grids.iter().enumerate() {
         for k in 0..g.len() {
